@@ -435,6 +435,9 @@ func (e *Engine) Run(harness string) *Report {
 func (e *Engine) runPath(i *interpreter, fn *ssa.Function, it workItem) {
 	i.resetDynamic()
 	i.p = newPath(it.prefix, it.model)
+	i.hooks = nil
+	i.inHook = false
+	i.guardLimit = nil
 	i.goroutinesReset()
 	end := "completed"
 	var abort *pathAbort
